@@ -502,6 +502,102 @@ def r8_metadata_last(ctx):
             )
 
 
+def r9_plan_pairing(ctx):
+    corpus = ctx.corpus
+    fn = corpus.func('repository', 'Repository.restore')
+    cfg = cfg_of(fn.node)
+    cons = [f for f in fn.nested.values() if any(isinstance(n, ast.Attribute) and n.attr == 'download_stream' for n in walk_local(f.node))]
+    # the pending dict: the one whose elements the consumer removes the digest from
+    pending = None
+    for f in cons:
+        for c in calls_in(f.node):
+            if isinstance(c.func, ast.Attribute) and c.func.attr in ('remove', 'discard') and isinstance(c.func.value, ast.Name):
+                alias = c.func.value.id
+                for a in walk_local(f.node):
+                    if isinstance(a, ast.Assign) and isinstance(a.targets[0], ast.Name) and a.targets[0].id == alias and isinstance(a.value, ast.Subscript) and isinstance(a.value.value, ast.Name):
+                        pending = a.value.value.id
+    if pending is None:
+        raise AnalysisError('C01.R9: pending-digest bookkeeping of the chunk consumer not found')
+    # in the plan: alias of pending[file] gets .add(digest); references dict gets [digest].append(...)
+    adds, apps = [], []
+    alias = None
+    for a in walk_local(fn.node):
+        if isinstance(a, ast.Assign):
+            for t in a.targets:
+                if isinstance(t, ast.Subscript) and isinstance(t.value, ast.Name) and t.value.id == pending:
+                    for t2 in a.targets:
+                        if isinstance(t2, ast.Name):
+                            alias = t2.id
+    for c in calls_in(fn.node):
+        if isinstance(c.func, ast.Attribute) and c.func.attr == 'add' and isinstance(c.func.value, ast.Name) and c.func.value.id == alias:
+            adds.append(enclosing_stmt(c))
+        if isinstance(c.func, ast.Attribute) and c.func.attr == 'append' and isinstance(c.func.value, ast.Subscript) and isinstance(c.func.value.value, ast.Name) and 'reference' in c.func.value.value.id:
+            apps.append(enclosing_stmt(c))
+    ctx.floor('C01.R9', 'pending-set additions in the restore plan', len(adds))
+    ctx.floor('C01.R9', 'reference appends in the restore plan', len(apps))
+    loops = [l for l in walk_local(fn.node) if isinstance(l, ast.For) and any(is_within(a, l) for a in adds)]
+    inner = loops[-1]
+    heads = cfg.nodes_of(inner, 'loop')
+    app_ok = [x for a in apps for x in cfg.nodes_of(a, 'ok')]
+    add_ok = [x for a in adds for x in cfg.nodes_of(a, 'ok')]
+    p1 = None
+    for x in add_ok:
+        p1 = p1 or cfg.path(x, heads, avoid=app_ok, kinds=('normal',))
+    p2 = None
+    for t in cfg.nodes_of(inner, 'true'):
+        for a in apps:
+            for x in cfg.nodes_of(a, 'stmt'):
+                p2 = p2 or cfg.path(t, [x], avoid=add_ok + heads, kinds=('normal',))
+    ctx.check(
+        p1 is None and p2 is None,
+        'C01.R9',
+        f'{func_label(fn)}|pending-digest-iff-reference',
+        loc(fn, adds[0]),
+        f'restore plan: a digest is added to the file\'s pending set exactly when a reference for it is queued (the loaders clear exactly what was queued)',
+        'restore plan: a chunk can be added to a file\'s pending set without a reference being queued for it (or vice versa): the file is never finished (no metadata) or finished early',
+        cfg.describe_path([n for n in (p1 or p2 or []) if n.kind in ('stmt', 'true', 'false', 'test')][:10], fn.module),
+    )
+    # the chunk-less finishing loop tests the same pending sets
+    ok = False
+    for l in walk_local(fn.node):
+        if isinstance(l, ast.For) and any(True for _ in self_calls(l, {'restore_metadata'})) and not any(isinstance(a, ast.For) for a in ancestors(l)):
+            it_names = {n.id for n in ast.walk(l.iter) if isinstance(n, ast.Name)}
+            tests = [i.test for i in walk_local(l) if isinstance(i, ast.If)]
+            if pending in it_names and tests and all(isinstance(t, ast.UnaryOp) and isinstance(t.op, ast.Not) and isinstance(t.operand, ast.Name) for t in tests):
+                ok = True
+    ctx.check(
+        ok,
+        'C01.R9',
+        f'{func_label(fn)}|chunkless-test-on-pending-set',
+        loc(fn, fn.node),
+        f'restore: "no loader will visit this file" is decided on the pending sets `{pending}` themselves',
+        f'restore: the files finished up-front are not chosen by their pending sets `{pending}` (the sets the loaders clear): a file can be left waiting for a loader that never comes',
+    )
+    digest_cleared_after_writes(ctx, 'C01.R8')
+
+
+def digest_cleared_after_writes(ctx, rule):
+    # the consumer clears its digest only after its own writes were observed
+    fn = ctx.corpus.func('repository', 'Repository.restore')
+    cons = [f for f in fn.nested.values() if any(isinstance(n, ast.Attribute) and n.attr == 'download_stream' for n in walk_local(f.node))]
+    for f in cons:
+        fcfg = cfg_of(f.node)
+        res_loops = [l for l in walk_local(f.node) if isinstance(l, ast.For) and any(isinstance(c.func, ast.Attribute) and c.func.attr == 'result' for c in calls_in(l))]
+        after = [x for l in res_loops for x in fcfg.nodes_of(l, 'join')]
+        for c in calls_in(f.node):
+            if isinstance(c.func, ast.Attribute) and c.func.attr in ('remove', 'discard') and isinstance(c.func.value, ast.Name):
+                st = enclosing_stmt(c)
+                okr = bool(after) and all(fcfg.set_dominates(after, x) for x in fcfg.nodes_of(st, 'stmt'))
+                ctx.check(
+                    okr,
+                    rule,
+                    f'{func_label(f)}|digest-cleared-after-own-writes',
+                    loc(f, st),
+                    f'{f.name}: the chunk is marked done for a file only after every write of this chunk was observed (result())',
+                    f'{f.name}: the chunk is marked done before its writes completed: another loader can finish the file (restore its times) while a write is still pending, which resets the modification time',
+                )
+
+
 def run(ctx):
     p = r1_unique(ctx)
     r2_accounting(ctx, p)
@@ -511,3 +607,7 @@ def run(ctx):
     r6_confinement(ctx)
     r7_coverage(ctx, p)
     r8_metadata_last(ctx)
+    r9_plan_pairing(ctx)
+    from .c02 import r8_skip_upload_only_on_backend_answer
+
+    r8_skip_upload_only_on_backend_answer(ctx, rule='C01.R10')
